@@ -205,8 +205,8 @@ class SymCtx(_Base):
         return x
 
     # code under verification ---------------------------------------------------------------
-    def world(self, stubs=None, loops=None, np_hooks=None, names=None):
-        w = World(stubs, loops, np_hooks, names)
+    def world(self, stubs=None, loops=None, np_hooks=None, names=None, comps=False):
+        w = World(stubs, loops, np_hooks, names, comps)
         self.worlds.append(w)
         return w
 
